@@ -103,7 +103,7 @@ package internal
 //@   prop C15
 //@   opaque watchStream
 //@   loop 1 iteration-ensures [reopened-after-a-broken-stream] calls(c.watchStream, cli, key, rev) == 1 && !ret(watchStream)
-//@   ensures [ends-only-on-shutdown] calls(watchStream) == 1 && ret(watchStream)
+//@   ensures [ends-only-on-shutdown] tail(calls(watchStream) == 1 && ret(watchStream))
 // watchStream: starts after the last seen revision (rev+1) when there is one; every healthy response is handed,
 // whole, to handleWatchEvents for this prefix; a closed / cancelled / failed stream ends with false (to be
 // re-opened), a cluster shutdown with true.
@@ -114,7 +114,7 @@ package internal
 //@   ensures [from-now-when-unknown] rev == 0 ==> calls(clientv3.WithRev) == 0
 //@   ensures [one-watch-on-the-prefix] calls(cli.Watch) == 1 && arg(cli.Watch, 1) == ret(makeKeyPrefix) && calls(makeKeyPrefix, key) == 1
 //@   loop 1 iteration-ensures [healthy-response-handled] calls(c.handleWatchEvents) == 1 && arg(c.handleWatchEvents, 1) == key && arg(c.handleWatchEvents, 2) == ret(on("recv", local(watchCh)), 0).Events && ret(on("recv", local(watchCh)), 1) && !ret(on("recv", local(watchCh)), 0).Canceled
-//@   ensures [shutdown-true-else-false] result == (calls(on("recv", c.done)) == 1)
+//@   ensures [shutdown-true-else-false] result == tail(calls(on("recv", c.done)) == 1)
 
 // Connection state watcher: a loss (TransientFailure or Shutdown) is REMEMBERED until the connection is Ready
 // again - whatever states are passed through in between (Connecting, Idle) - and the first Ready after a loss
